@@ -5,6 +5,7 @@ import (
 	"fmt"
 	"github.com/Trendyol/go-dcp/config"
 	"github.com/couchbase/gocbcore/v10"
+	"time"
 
 	dcp "github.com/Trendyol/go-dcp"
 	"github.com/Trendyol/go-dcp/stream"
@@ -41,6 +42,7 @@ func init() {
 			for i := 0; i < parts; i++ {
 				out = append(out, Instance{Scenario: "c18_gates", Params: mustJSON(GateParams{Tier: tier, Part: i, Of: parts}), Bound: 0})
 			}
+			out = append(out, Instance{Scenario: "c18_serialclose", Params: mustJSON(struct{}{}), Bound: 0, Shards: 2, Note: "the serial-close gate observed at the wire through lifecycles (a re-opened vBucket) and configurations (slow answers, short connection time-out)"})
 			out = append(out, Instance{Scenario: "c18_connectfault", Params: mustJSON(struct{}{}), Bound: 0, Shards: 2, Note: "the first DCP connect fails: no session with features other than those the version gates"})
 			return out
 		},
@@ -156,6 +158,96 @@ func init() {
 			wantCS := k[1] == "magma" && geq(t, [4]int{7, 2, 0, 0})
 			if dc.UseExpiryOpcode != wantExp || dc.UseChangeStreams != wantCS {
 				vrt.Failf("%s: the session runs with expiry opcode=%v change streams=%v, the server version gates %v / %v", desc, dc.UseExpiryOpcode, dc.UseChangeStreams, wantExp, wantCS)
+			}
+		}}
+	}
+}
+
+// c18_serialclose: the gate "streams are closed one at a time below 5.5.0" observed at the wire, through
+// lifecycles and configurations: versions around the gate x {fresh session, a vBucket that went through a
+// transient end and a re-open} x close-stream answers {prompt, 3 s} x dcp.connectionTimeout {default, 1 s}.
+// Close() returns; below 5.5.0 no two close-stream requests are ever outstanding at the same time, from
+// 5.5.0 on they are all sent at once.
+func init() {
+	scenarios["c18_serialclose"] = func(raw json.RawMessage) *vrt.Scenario {
+		return &vrt.Scenario{Name: "c18_serialclose", FreeChoices: true, NoTimerAlt: true, MaxSteps: 400000, Main: func() {
+			resetGlobals()
+			vs := [][4]int{{4, 6, 5, 0}, {5, 0, 0, 0}, {5, 4, 9, 0}, {5, 5, 0, 0}, {6, 5, 0, 0}, {7, 2, 0, 0}}
+			t := vs[vrt.Choose(len(vs), true, "version")]
+			reopened := vrt.Choose(2, true, "a-vbucket-was-re-opened-after-a-transient-end") == 1
+			slow := vrt.Choose(2, true, "close-stream-answers-take-3s") == 1
+			shortTimeout := vrt.Choose(2, true, "dcp.connectionTimeout=1s") == 1
+			o := EnvOpts{Vbs: 3, CheckpointType: "manual", WrapMeta: true, Version: ver(t)}
+			if shortTimeout {
+				o.ConnectionTimeout = time.Second
+			}
+			c := NewCluster(&o)
+			for vb := uint16(0); vb < 3; vb++ {
+				c.Append(vb, marker(1, 1), symbolPacket("M", 1))
+			}
+			e := NewEnv(c, o)
+			e.Cons.AutoAck = true
+			e.Stream.Open()
+			c.WaitIdle()
+			desc := fmt.Sprintf("server %v, re-opened vBucket: %v, slow close answers: %v, connectionTimeout 1s: %v", t, reopened, slow, shortTimeout)
+			vrt.SetOutcome(desc)
+			if reopened {
+				c.EndStream(1, gocbcore.ErrDCPStreamStateChanged)
+				vrt.Sleep(2 * time.Second)
+				vrt.Quiesce()
+				c.WaitIdle()
+				if !c.StreamOpen(1) {
+					vrt.Failf("%s: vb1 was not re-opened after a transient end", desc)
+					return
+				}
+			}
+			if slow {
+				c.Fault = func(r *gocbcore.SimRequest) gocbcore.SimAnswer {
+					if r.Kind == "closestream" {
+						return gocbcore.SimAnswer{Kind: "delay", Delay: 3 * time.Second}
+					}
+					return gocbcore.SimAnswer{}
+				}
+			}
+			n0 := len(c.Requests)
+			closed := false
+			vrt.GoNamed("closer", func() { e.Stream.Close(true); closed = true })
+			vrt.Sleep(5 * time.Minute)
+			vrt.Quiesce()
+			if !closed {
+				vrt.Failf("%s: Close() did not return; blocked: %v", desc, vrt.BlockedThreads())
+				return
+			}
+			var cs []*gocbcore.SimRequest
+			for _, r := range c.Requests[n0:] {
+				if r.Kind == "closestream" {
+					cs = append(cs, r)
+				}
+			}
+			if len(cs) != 3 {
+				vrt.Failf("%s: %d close-stream requests for 3 streams", desc, len(cs))
+			}
+			overlap := false
+			for i := range cs {
+				for j := i + 1; j < len(cs); j++ {
+					fi, fj := cs[i].Finished, cs[j].Finished
+					if fi == 0 {
+						fi = 1 << 62
+					}
+					if fj == 0 {
+						fj = 1 << 62
+					}
+					if cs[i].Issued < fj && cs[j].Issued < fi && (cs[i].Issued != fi || cs[j].Issued != fj) {
+						overlap = true
+					}
+				}
+			}
+			serial := lexLess(t, [4]int{5, 5, 0, 0})
+			if serial && overlap {
+				vrt.Failf("%s: two close-stream requests were outstanding at the same time on a server below 5.5.0", desc)
+			}
+			if !serial && slow && !overlap {
+				vrt.Failf("%s: the close-stream requests were sent one at a time on a server at or above 5.5.0", desc)
 			}
 		}}
 	}
